@@ -40,6 +40,26 @@ pub fn fault_cases(out: &mut Out, r: &mut Rng, o: &Obj, bytes: &[u8], calls: usi
     }
 }
 
+/// streams that additionally report ErrorKind::Interrupted on some calls (standard `Write` contract: retry): the outcome must be exactly
+/// that of the same stream without the interruptions (model: `serializeI`, spec: `serialize` on the underlying stream — theorem `serializeI_erase`)
+pub fn interrupt_cases(out: &mut Out, r: &mut Rng, o: &Obj, bytes: &[u8], calls: usize) {
+    let hx = hex(bytes);
+    for v in 0..4 {
+        let lim: Vec<usize> = match v { 0 => vec![8], 1 => vec![1], _ => (0..3).map(|_| r.range(1, 8) as usize).collect() };
+        let fail = if v == 3 { Some(r.below((calls * 2).max(1) as u64) as usize) } else { None };
+        // interrupted call indices: the first call, runs of consecutive calls, scattered ones over (roughly) the whole transmission
+        let span = (calls * if lim[0] < 8 { 9 } else { 1 } + 4) as u64;
+        let mut intr: Vec<usize> = vec![0, 1, 2, r.below(span) as usize, r.below(span) as usize];
+        for _ in 0..r.range(0, 6) { let b = r.below(span) as usize; intr.push(b); intr.push(b + 1); }
+        intr.sort(); intr.dedup();
+        let lhs = format!("c15wi {} {} {} {} {} {} {}", o.ty, o.ctx, o.terms, hx, flu(&lim), fail.map(|f| f.to_string()).unwrap_or("-".into()), flu(&intr));
+        out.case(&lhs, &format!("wi-{}{}-{}", if lim.len() == 1 { format!("lim{}", lim[0]) } else { "limseq".into() }, if fail.is_some() { "-fail" } else { "" }, o.class), || {
+            let mut fw = FaultWriter::new(lim.clone(), fail).with_interrupts(intr.clone());
+            match (o.ser)(&mut fw) { Ok(n) => format!("Ok:{}:{}", n, hex(&fw.out)), Err(_) => format!("Err:{}", hex(&fw.out)) }
+        });
+    }
+}
+
 pub fn trunc_cases(out: &mut Out, r: &mut Rng, o: &Obj, bytes: &[u8], all_below: usize) {
     let hx = hex(bytes);
     let len = bytes.len();
@@ -110,7 +130,7 @@ pub fn run(out: &mut Out, thorough: bool, seed: u64, extra: &[String]) {
         let _ = c;
     }
     for o in scalar_objects(&mut r) {
-        if let Some((b, c)) = reference(&o) { fault_cases(out, &mut r, &o, &b, c, true); trunc_cases(out, &mut r, &o, &b, 4096); }
+        if let Some((b, c)) = reference(&o) { fault_cases(out, &mut r, &o, &b, c, true); interrupt_cases(out, &mut r, &o, &b, c); trunc_cases(out, &mut r, &o, &b, 4096); }
     }
     let all_below = if thorough { 600 } else { 160 };
     for (fi, (scheme, n, bits, t, special)) in families(thorough).into_iter().enumerate() {
@@ -125,6 +145,7 @@ pub fn run(out: &mut Out, thorough: bool, seed: u64, extra: &[String]) {
             // quick tier: every object gets truncations, big ones a thinner set of fault sequences
             if !thorough && b.len() > 3000 && (oi + fi) % 3 != 0 { continue; }
             fault_cases(out, &mut r, o, &b, c, thorough || b.len() <= 400);
+            if thorough || b.len() <= 1200 { interrupt_cases(out, &mut r, o, &b, c); }
             trunc_cases(out, &mut r, o, &b, all_below);
         }
     }
